@@ -17,7 +17,9 @@ search
   1. evaluates BOTH regenerated formulas (as Python, in double) on a grid that contains the kinks
      (x = 0) and records every point where they differ by more than 1e-6 relative: these are the
      candidate failing inputs when a theorem no longer checks;
-  2. runs the REAL kernels of both backends (harness/scalar_drv.cc, single-element tensors) on the
+  2. runs the REAL kernels of both backends (harness/scalar_drv.cc; every operand a vector of 21 = 16k+5
+     equal elements, so that Eigen's packet body and its scalar tail both run; element 0 and - when the 21
+     results are not bit-identical - the most deviating element are both compared) on the
      whole grid: Naive against Eigen directly (the property itself; tolerance of the pair grid:
      2e-5 * max(1, |naive|, |eigen|), same inf/NaN class), and Eigen against its generated formula
      (validation of the translator, 1e-5 * max(1, |v|)).
@@ -260,15 +262,14 @@ def search(ctx, tables, proof_res):
         outs = outs + ["<no output>"] * (2 * n - len(outs))
 
     def nums(s):
-        try:
-            return [float(t) for t in s.split()]
-        except ValueError:
-            return None
+        """(values of element 0, values of the most deviating element of the 21-vector or None)"""
+        head, tail, _, _ = sc.parse_out(s)
+        return head, tail
     real_diffs, tie_diffs, accept_diffs = {}, {}, []
     compared = tie_checked = 0
     for i, (base, kind, p, vals) in enumerate(meta):
         on, oe = outs[i], outs[n + i]
-        vn, ve = nums(on), nums(oe)
+        (vn, tn), (ve, te) = nums(on), nums(oe)
         if vn is None or ve is None:
             if on != oe:
                 accept_diffs.append((cases[i], on, oe))
@@ -277,17 +278,23 @@ def search(ctx, tables, proof_res):
             j = out_index(f)
             if j >= len(vn) or j >= len(ve):
                 continue
-            compared += 1
-            if differ(vn[j], ve[j], REL_REAL):
-                real_diffs.setdefault(f, []).append((i, vn[j], ve[j]))
+            # element 0 of both backends, and the other code path of either backend (packet body / scalar tail)
+            pairs = [(vn[j], ve[j])] + ([(vn[j], te[j])] if te else []) + ([(tn[j], ve[j])] if tn else [])
+            for (a, b) in pairs:
+                compared += 1
+                if differ(a, b, REL_REAL):
+                    real_diffs.setdefault(f, []).append((i, a, b))
+                    break
             # translator validation: real Eigen value against the Eigen formula at the real y
             params = nt["defs"][f]["params"]
-            if FE.f.get("e" + f) is not None and cls(ve[0]) == 3:
-                fv = FE("e" + f, *args_for(f, params, p, ve[0]))
-                if fv is not None and cls(fv) == 3 and abs(fv) <= sc.FLT_MAX and cls(ve[j]) == 3:
-                    tie_checked += 1
-                    if abs(fv - ve[j]) > REL_TIE * max(1.0, abs(fv)):
-                        tie_diffs.setdefault(f, []).append((i, fv, ve[j]))
+            for ev in ([ve] + ([te] if te else [])):
+                if FE.f.get("e" + f) is not None and cls(ev[0]) == 3:
+                    fv = FE("e" + f, *args_for(f, params, p, ev[0]))
+                    if fv is not None and cls(fv) == 3 and abs(fv) <= sc.FLT_MAX and cls(ev[j]) == 3:
+                        tie_checked += 1
+                        if abs(fv - ev[j]) > REL_TIE * max(1.0, abs(fv)):
+                            tie_diffs.setdefault(f, []).append((i, fv, ev[j]))
+                            break
     # ---- 3. report
     reported = 0
     for f in sorted(real_diffs):
